@@ -1,11 +1,11 @@
 #!/bin/sh
 # tryvar.sh [ID...] : run the quick checks against the stored property-preserving variations
-# (seeded/variations/<ID>-v<k>.diff); expected outcome: OK for every one (no false alarm).
+# (seeded/variations/<ID>-v<k>.diff; VK=<glob> restricts k); expected outcome: OK for every one (no false alarm).
 VH=$(cd "$(dirname "$0")/.." && pwd)
 cross() { case $1 in C01) echo "C01 C12";; C02) echo "C02 C07";; C03) echo "C03 C15";; C04) echo "C04 C05 C15";; C13) echo "C13 C07 C12 C19";; C14) echo "C14 C06";; C15) echo "C15 C03 C04";; C16) echo "C16 C15";; *) echo $1;; esac; }
 IDS=${@:-C01 C02 C03 C04 C05 C06 C07 C08 C09 C10 C11 C12 C13 C14 C15 C16 C17 C18 C19 C20}
 for ID in $IDS; do
-  for p in $VH/seeded/variations/$ID-v*.diff; do
+  for p in $VH/seeded/variations/$ID-v${VK:-*}.diff; do
     [ -f "$p" ] || continue
     for c in $(cross $ID); do
       r=$($VH/tools/trymut.sh $p $c 2>&1 | grep -v conda | grep "signature=\|^OK\|HARNESS\|INCONCLUSIVE\|patch does not" | head -3 | cut -c1-200 | tr '\n' ' ')
